@@ -17,8 +17,8 @@ def canon_outputs(system, y, used_model: dict):
     for var, arr in y.items():
         v = system.outputs()[var]
         arr = np.asarray(arr, dtype=float)
-        if used_model.get(owner[var]) or not system[owner[var]].has_surrogate:
-            out[var] = arr
+        if used_model.get(owner[var]):        # only an explicit use_model returns raw values; a component without surrogate
+            out[var] = arr                    # evaluated through predict() converts its outputs to surrogate (normalised) form
         else:
             out[var] = np.asarray(v.denormalize(arr), dtype=float)
     return out
@@ -28,6 +28,8 @@ def run(ctx: Ctx):
     import_amisc()
     run_main(ctx)
     run_nan_listing(ctx)
+    run_positional(ctx)
+    run_rewire(ctx)
 
 
 def run_main(ctx: Ctx):
@@ -125,7 +127,7 @@ def run_main(ctx: Ctx):
             if not systems.floats_close(y_raw[o], y_nrm[o], rtol=1e-9, atol=1e-9):
                 ctx.violate('C07:raw-vs-normalised', f'output {o}: {np.asarray(y_raw[o]).tolist()} from raw inputs, {np.asarray(y_nrm[o]).tolist()} from normalised inputs', case)
         # ---- trained surrogate: prediction = manual chaining of Component.predict in dependency order; per-component overrides
-        if n % 3 == 0:
+        if n % 2 == 0:
             np.random.seed(ctx.seed * 13 + n)
             system.fit(max_iter=rng.randint(3, 7), num_refine=10, max_tol=-1.0, update_bounds=False)
             xs = system.sample_inputs(3)
@@ -210,3 +212,66 @@ def run_nan_listing(ctx: Ctx):
                             f'listing {perm}: {bad[0]} = {np.asarray(y[bad[0]]).tolist()}, composition in dependency order gives {exp[bad[0]].tolist()} '
                             f'(only component n{nan_comp} returns NaN, for x{nan_comp} > 0.5)', {**case, 'listing': perm})
                 break
+
+
+def run_positional(ctx: Ctx):
+    """components built from plain functions with positional signatures: every listing must feed each argument by NAME"""
+    from amisc import System
+    import unpacked_models as um
+    rng = ctx.rng
+    funcs = [um.square, um.mix, um.third]
+    x = {'x0': np.array([0.25, 1.5, -2.0]), 'x1': np.array([1.0, 0.5, 3.0])}
+    exp = um.expected(x['x0'], x['x1'])
+    for perm in itertools.permutations(range(3)):
+        for insert in (False, True):
+            case = {'positional_listing': [funcs[i].__name__ for i in perm], 'insert': insert}
+            ctx.case(case, nontrivial=True, kind='positional')
+            try:
+                if insert:
+                    system = System(funcs[perm[0]], name='pos')
+                    system.insert_components([funcs[i] for i in perm[1:]])
+                else:
+                    system = System(*[funcs[i] for i in perm], name='pos')
+                y = system.predict(x, use_model='best', normalized_inputs=False)
+            except Exception as e:
+                ctx.violate('C07:predict-raises', f'positional models, listing {case["positional_listing"]}: {type(e).__name__}: {e}', case); continue
+            for k, v in exp.items():
+                if not systems.floats_close(y[k], v):
+                    ctx.violate('C07:positional-arguments-misordered', f'listing {case["positional_listing"]}: {k} = {np.asarray(y[k]).tolist()}, '
+                                f'composition gives {v.tolist()}', case); break
+
+
+def run_rewire(ctx: Ctx):
+    """predict, then swap a component for one of the same name with different wiring, then predict again: must equal a fresh system"""
+    from amisc import Component, System, Variable
+    rng = ctx.rng
+    for n in range(ctx.pick(6, 40)):
+        xa, xb = Variable('xa', domain=(0, 1)), Variable('xb', domain=(0, 1))
+        ya, yb = Variable('ya', domain=(-9, 9)), Variable('yb', domain=(-9, 9))
+
+        def fa(inputs):
+            return {'ya': 2.0 * np.asarray(inputs['xa'], dtype=float) + 1.0}
+
+        def fb_old(inputs):
+            return {'yb': 3.0 * np.asarray(inputs['xb'], dtype=float)}
+
+        def fb_new(inputs):
+            return {'yb': 3.0 * np.asarray(inputs['xb'], dtype=float) + np.asarray(inputs['ya'], dtype=float)}
+        A = Component(fa, [xa], [ya], name='A', vectorized=True)
+        B_old = Component(fb_old, [xb], [yb], name='B', vectorized=True)
+        B_new = Component(fb_new, [xb, ya], [yb], name='B', vectorized=True)
+        order = rng.choice([['A', 'B'], ['B', 'A']])
+        comps = {'A': A, 'B': B_old}
+        x = {'xa': np.array([0.25, 0.5]), 'xb': np.array([0.125, 1.0])}
+        case = {'rewire': n, 'listing': order}
+        ctx.case(case, nontrivial=True, kind='rewire')
+        try:
+            system = System(*[comps[c] for c in order], name='rw')
+            system.predict(x, use_model='best', normalized_inputs=False)
+            system.swap_component('B', B_new)
+            y = system.predict(x, use_model='best', normalized_inputs=False)
+        except Exception as e:
+            ctx.violate('C07:stale-graph-after-swap', f'predict after swap_component raised {type(e).__name__}: {e}', case); continue
+        want = 3.0 * x['xb'] + 2.0 * x['xa'] + 1.0
+        if not systems.floats_close(y['yb'], want):
+            ctx.violate('C07:stale-graph-after-swap', f'yb = {np.asarray(y["yb"]).tolist()} after swapping B for a component that also reads ya; expected {want.tolist()}', case)
